@@ -138,6 +138,12 @@ func init() {
 			return
 		}
 		c.Outcome(key, errType(rr.Err), strings.Join(rr.Rest, "\x01"))
+		if res.Fault == nil && rr.Err != nil && !res.Grey {
+			// every token of this alphabet that the model lets through is, by the statement, passed through or consumed:
+			// a rejection means a token was not handled as the pass-through rules say
+			c.Fail("passed-through-token-rejected|"+errType(rr.Err), fmt.Sprint(rr.Err))
+			return
+		}
 		if rr.Err != nil || res.Fault != nil {
 			c.Hit("rejected")
 			return
